@@ -388,6 +388,8 @@ def _worker_main(conn, modname, tier, seed, shard, nshards, open_keys, findings)
     finally:
         try:
             conn.close()
+            from .kit import env as _env
+            _env.cleanup()
         finally:
             os._exit(0)
 
@@ -422,6 +424,11 @@ def run_check(mod, tier, seed, shards_override=None):
     if hasattr(mod, "selftest"):
         mod.selftest()
     plan = mod.plan(tier)
+    fdir = os.path.join(OUT_DIR, "replays", "found")
+    if os.path.isdir(fdir):
+        for name in os.listdir(fdir):
+            if name.startswith(mod.ID + "-"):
+                os.unlink(os.path.join(fdir, name))
     nshards = shards_override or plan.get("shards", 16)
     hard_limit = plan.get("hard_limit_s", 600 if tier == "quick" else 3600)
     ctx = multiprocessing.get_context("fork")
